@@ -648,9 +648,16 @@ def cond_facts(state, test, pol):
     """cond_atoms of the test, plus the atoms of the test with temporaries replaced by their definitions."""
     out = cond_atoms(test, pol)
     defs = def_facts(state)
-    if defs and any(isinstance(x, ast.Name) and x.id in defs for x in ast.walk(test)):
+    used = sorted({x.id for x in ast.walk(test) if isinstance(x, ast.Name) and x.id in defs})
+    if used:
         r = resolve_at(state, test)
         out = out | cond_atoms(r, pol)
+        # ... and with each temporary replaced on its own: the result must not shrink when MORE definitions are known
+        # (a path on which `cursor := end` also holds still establishes the fact about `cursor`)
+        if len(used) > 1:
+            for nm in used:
+                only = frozenset((t, p) for t, p in state if not (t.startswith("(") and " := " in t) or t.startswith("(%s := " % nm))
+                out = out | cond_atoms(resolve_at(only, test), pol)
     return out
 
 
@@ -667,6 +674,8 @@ def cond_atoms(test, pol):
                 out |= cond_atoms(v, False)
     elif isinstance(test, ast.UnaryOp) and isinstance(test.op, ast.Not):
         out |= cond_atoms(test.operand, not pol)
+    elif isinstance(test, ast.Call) and isinstance(test.func, ast.Name) and test.func.id == "bool" and len(test.args) == 1 and not test.keywords:
+        out |= cond_atoms(test.args[0], pol)
     elif isinstance(test, ast.Compare) and len(test.ops) == 1:
         left, op, right = test.left, test.ops[0], test.comparators[0]
         is_none = isinstance(right, ast.Constant) and right.value is None
